@@ -15,7 +15,7 @@ CHUNK = 1
 RECHECK_MOD = 53
 PROBES = ['cut_in_header', 'cut_in_threadmap', 'cut_in_stackshot_scan', 'cut_inside_last_bytes_of_record', 'cut_after_complete_old_capture_in_stackshot', 'cut_in_chunkhdr', 'cut_in_record',
           'cut_at_record_boundary', 'cut_in_block', 'cut_in_pad', 'eio_fired', 'count_limit', 'v2', 'v3',
-          'cut_in_event_tag_scan', 'cli_run', 'cli_run_with_filters', 'many_chunks', 'dump_with_orphan_ends', 'unbuffered_reader']
+          'cut_in_event_tag_scan', 'long_lived_parser_lists_every_cut', 'cli_run', 'cli_run_with_filters', 'many_chunks', 'dump_with_orphan_ends', 'unbuffered_reader']
 RULE = ('one run = one simulated dump (SimKernel threads -> merged stream -> v2/v3 writer) with every cut offset '
         '0..len (thorough) or all structure boundaries +-2 plus a seeded sample (quick), each parsed through SimReader '
         'under a read budget of 2*len+4096 calls and 3*len+4096 bytes; non-trivial = the dump holds >= 1 record and >= 1 cut landed '
@@ -85,6 +85,7 @@ def generate(rng, index, tier):
         mapped = [t[1] for t in scn['writer'].get('tmap', []) if t[0] == th['tid']]
         th['ops'].insert(rng.randrange(len(th['ops']) + 1), worlds.op_exec(rng, mapped[0] if mapped else rng.randrange(1, 5000), rng.ident()))
     scn['cli'] = index % 12 == 0
+    scn['reuse_parser'] = rng.chance(0.25)
     scn['reader'] = 'raw' if index % 5 == 2 else 'bytesio'
     if index % 157 == 3:
         scn['bulk_records'] = worlds.dict_size(rng, 70000, k=index // 157) or 3000      # as many records as a count the source names (+-1)
@@ -107,7 +108,7 @@ def generate(rng, index, tier):
     return scn
 
 
-def _views(data, table, scn, budget=True, eio=None, deep=True):
+def _views(data, table, scn, budget=True, eio=None, deep=True, long_lived=None):
     """Run the tool over `data`; returns dict view -> (items, exc-signature)."""
     out = {}
     n = len(data)
@@ -120,7 +121,14 @@ def _views(data, table, scn, budget=True, eio=None, deep=True):
         if scn.get('reader') == 'raw' and eio is None:
             return SimRawReader(data, budget_calls=bc, budget_bytes=bb)       # an unbuffered stream
         return SimReader(data, budget_calls=bc, budget_bytes=bb, eio_at=eio)
-    p = common.new_parser(filter_tid=scn.get('filter_tid'))
+    def parser_for(key, **attrs):
+        # one long-lived parser object per view when the caller keeps them (it has listed other dumps before), else a new one
+        if long_lived is None:
+            return common.new_parser(**attrs)
+        if key not in long_lived:
+            long_lived[key] = common.new_parser(**attrs)
+        return long_lived[key]
+    p = parser_for('events', filter_tid=scn.get('filter_tid'))
     items, exc = common.drain(lambda: p.kevents(reader()))
     out['events'] = ([common.ev_tuple(e) for e in items], type(exc).__name__ if exc else None)
     # the container parser on its own (the events-then-logs stream, logs removed)
@@ -130,7 +138,7 @@ def _views(data, table, scn, budget=True, eio=None, deep=True):
     out['raw_events'] = ([common.ev_tuple(e) for e in items if not common.is_log(e)], type(exc).__name__ if exc else None)
     out['_reads'] = (rd.calls, rd.bytes_read, rd.eio_fired)
     if deep:
-        p = common.new_parser(filter_tid=scn.get('filter_tid'), filter_process=scn.get('filter_process'))
+        p = parser_for('traces', filter_tid=scn.get('filter_tid'), filter_process=scn.get('filter_process'))
         snaps = []
 
         def pull():
@@ -147,7 +155,7 @@ def _views(data, table, scn, budget=True, eio=None, deep=True):
                 texts.append([type(t).__name__, 'str-raised:' + type(e).__name__])
         out['traces'] = (texts, type(exc).__name__ if exc else None)
         # callstack objects: what was handed out stays what it was
-        p = common.new_parser(filter_tid=scn.get('filter_tid'))
+        p = parser_for('callstacks', filter_tid=scn.get('filter_tid'))
         cs_snaps = []
 
         def cs_repr(c):
@@ -160,13 +168,13 @@ def _views(data, table, scn, budget=True, eio=None, deep=True):
         citems, cexc = common.drain(pull_cs)
         out['callstacks'] = ([list(map(list, [r0[2]])) + [r0[0], r0[1]] for _c, r0 in cs_snaps], type(cexc).__name__ if cexc else None)
         out['_changed_later'] += [('callstack', i, 0) for i, (c, r0) in enumerate(cs_snaps) if cs_repr(c) != r0]
-        p = common.new_parser(color=bool(scn.get('color')), show_tid=True, filter_tid=scn.get('filter_tid'), filter_process=scn.get('filter_process'))
+        p = parser_for('ftraces', color=bool(scn.get('color')), show_tid=True, filter_tid=scn.get('filter_tid'), filter_process=scn.get('filter_process'))
         items, exc = common.drain(lambda: p.formatted_traces(reader(), table))
         out['formatted_traces'] = (items, type(exc).__name__ if exc else None)
-        p = common.new_parser(show_tid=True, filter_tid=scn.get('filter_tid'))
+        p = parser_for('fkevents', show_tid=True, filter_tid=scn.get('filter_tid'))
         items, exc = common.drain(lambda: p.formatted_kevents(reader(), table))
         out['formatted_kevents'] = (items, type(exc).__name__ if exc else None)
-        p = common.new_parser(show_tid=True, filter_tid=scn.get('filter_tid'))
+        p = parser_for('fcallstacks', show_tid=True, filter_tid=scn.get('filter_tid'))
         items, exc = common.drain(lambda: p.formatted_callstacks(reader(), table))
         out['formatted_callstacks'] = (items, type(exc).__name__ if exc else None)
     return out
@@ -240,7 +248,10 @@ def execute(scn):
     if scn.get('reader') == 'raw':
         bump('probe:unbuffered_reader')
     try:
-        full = _views(data, table, scn)
+        kept = {} if scn.get('reuse_parser') else None     # the same parser objects list the complete dump, then every cut of it
+        if kept is not None:
+            bump('probe:long_lived_parser_lists_every_cut')
+        full = _views(data, table, scn, long_lived=kept)
     except SimBudgetExceeded as e:
         viols.append({'tag': 'nonterminating', 'sig': 'v%d:full-file' % ver, 'detail': str(e)})
         return {'violations': viols, 'digest': digest_of(scn, ['full-hang']), 'stats': stats, 'nontrivial': False,
@@ -287,7 +298,7 @@ def execute(scn):
             bump('probe:cut_in_block')
         bump('fault:truncate')
         try:
-            got = _views(data[:k], table, scn, deep=deep)
+            got = _views(data[:k], table, scn, deep=deep, long_lived=kept)
             if got.get('_changed_later'):
                 viols.append({'tag': 'reported-trace-changed-later', 'sig': 'v%d' % ver, 'detail': 'cut at %d: %r' % (k, got['_changed_later'][:3])})
         except SimBudgetExceeded as e:
@@ -383,12 +394,16 @@ def execute(scn):
                 res = runner.invoke(cli, args + [path] if False else [args[0], path] + args[1:])
                 return res.output, type(res.exception).__name__ if res.exception is not None and not isinstance(res.exception, SystemExit) else None
             for cmd in (['kevents'], ['traces', '--no-color'], ['callstacks']):
-                whole, _exc = run_cli(data, cmd)
+                whole, wexc0 = run_cli(data, cmd)
                 bump('probe:cli_run')
                 for c in scn.get('counts', [])[:3]:
                     part, exc = run_cli(data, cmd + ['-c', str(c)])
                     if not whole.startswith(part):
                         viols.append({'tag': 'cli-count-limit-changes-lines', 'sig': cmd[0], 'detail': 'count=%d output is not a prefix of the unlimited output' % c})
+                    elif wexc0 is None and cmd[0] != 'callstacks' and part.count('\n') != min(c, whole.count('\n')):
+                        # (one line per item in these views: a limit of c prints exactly the first c lines - 0 prints none)
+                        viols.append({'tag': 'cli-count-limit-wrong-number', 'sig': cmd[0] + (':zero' if c == 0 else ''),
+                                      'detail': '-c %d printed %d lines, the unlimited listing has %d' % (c, part.count('\n'), whole.count('\n'))})
                 rec_cuts = [c for c in cuts if _region(layout, c)[0] == 'record' or _region(layout, min(c + 1, n - 1))[0] == 'record']
                 for k in sorted(set([c for c in cuts if c % 7 == 0][:8] + rec_cuts[::max(1, len(rec_cuts) // 10)][:12])):
                     part, exc = run_cli(data[:k], cmd)
